@@ -407,6 +407,18 @@ func (ss *sess) recompute(when string) bool {
 			return false
 		}
 	}
+	// the extended form carries its own copies of the totals
+	if er, err := c.Do("SERVER", "EXT"); err == nil && er.Kind == '*' {
+		em := statsMap(er)
+		if _, has := em["tile38_num_objects"]; has {
+			if em["tile38_num_collections"] != int64(len(keys)) || em["tile38_num_objects"] != totObjects || em["tile38_num_points"] != totPoints || em["tile38_num_strings"] != totStrings {
+				ss.fail("server-ext-totals", fmt.Sprintf("%s: SERVER EXT says collections=%d objects=%d points=%d strings=%d; recomputed: %d %d %d %d", when,
+					em["tile38_num_collections"], em["tile38_num_objects"], em["tile38_num_points"], em["tile38_num_strings"], len(keys), totObjects, totPoints, totStrings))
+				return false
+			}
+			ss.ctx.Count("server_ext_totals_checked", 1)
+		}
+	}
 	return true
 }
 
